@@ -3,7 +3,7 @@ from tools.extract import Unit, Rw
 from tools.krun import Harness
 
 PROPERTY = "C05"
-PRELUDE = ["../common/base.rs", "prelude.rs"]
+PRELUDE = ["../common/base.rs", "prelude.rs", "lists.rs"]
 CK = "crates/core/src/commands/check.rs"
 R_ERR = Rw("", "verr()", count=None, kind="err", why="RusticError construction (kind/message/context dropped)")
 R_MAPERR = Rw("", "", count=None, kind="maperr", why=".map_err(<error building closure>) -> .vmap_err()")
@@ -117,9 +117,100 @@ UNITS += [
          hints=[("loop_start", "1", "                proof { let k = it.index@; assert(blobs@[k] == *blob); lemma_start_mono(blobs@, k + 1, blobs@.len() as int); }")],
          ),
 ]
+
+# ---- list comparisons: a pack / hot file that is missing or has a different size is reported as an ERROR
+R_DROP_E = Rw("collector.add_error", "", kind="dropargs", count=None, why="CheckError payload dropped; reporting kept")
+R_DROP_W = Rw("collector.add_warn", "", kind="dropargs", count=None, why="CheckError payload dropped; reporting kept")
+R_PACKID = Rw("PackId::from(id)", "vpackid(id)", count=None, why="From<Id> for PackId (newtype wrap)")
+UNITS += [
+    Unit(name="check_packs_list", file=CK, anchor="fn check_packs_list(", ret_name="r",
+         functions=["commands::check::check_packs_list"],
+         rewrites=[
+             Rw("be: &impl ReadBackend,", "be: &VListBackend,", sig=True, why="impl ReadBackend -> listing stub"),
+             R_DROP_E, R_DROP_W, R_PACKID,
+             Rw("packs_from_be.sort_by_key(|item| item.0);", "vsort_by_id(&mut packs_from_be);", why="sort_by_key with closure -> permutation stub"),
+             Rw("for (id, size) in packs_from_be {", "for x in it: packs_from_be.iter() { let (id, size) = *x;", why="Verus for-loop syntax; by-reference iteration + destructuring"),
+             Rw("for (id, (size, to_delete)) in packs {", "let ents = packs.ventries(); for e in it2: ents.iter() {", why="map iteration -> entries vector"),
+         ],
+         contract="""
+    ensures
+        // runs that reported NO error: every pack the index knows is listed by the backend with exactly the indexed size
+        /*@no_error_implies_every_index_pack_listed_with_its_size*/ r is Ok ==> forall|id: PackId| old(packs)@.dom().contains(id) ==>
+            be.listed(FileType::Pack).contains((Id(id.0), (#[trigger] old(packs)@[id]).0)),
+""",
+         loops={1: """
+        invariant
+            forall|x: (Id, u32)| packs_from_be@.contains(x) ==> be.listed(FileType::Pack).contains(x),
+            forall|id: PackId| old(packs)@.dom().contains(id) ==>
+                (packs@.dom().contains(id) && packs@[id] == old(packs)@[id]) || be.listed(FileType::Pack).contains((Id(id.0), (#[trigger] old(packs)@[id]).0)),
+""", 2: """
+        invariant it2.index@ == 0,
+"""},
+         hints=[("loop_start", "1", "            proof { assert(packs_from_be@[it.index@] == *x); assert(packs_from_be@.contains(*x)); }")],
+         ),
+    Unit(name="check_packs_list_hot", file=CK, anchor="fn check_packs_list_hot(", ret_name="r",
+         functions=["commands::check::check_packs_list_hot"],
+         rewrites=[
+             Rw("be: &impl ReadBackend,", "be: &VListBackend,", sig=True, why="impl ReadBackend -> listing stub"),
+             R_DROP_E, R_DROP_W, R_PACKID,
+             Rw("for (id, size) in be.list_with_size(FileType::Pack)? {", "let listing = be.list_with_size(FileType::Pack)?; let ghost tp0 = treepacks@; for x in it: listing.iter() { let (id, size) = *x;", why="Verus for-loop syntax; by-reference iteration + destructuring"),
+             Rw("for (id, (size, to_delete)) in treepacks {", "let ents = treepacks.ventries(); for e in it2: ents.iter() {", why="map iteration -> entries vector"),
+         ],
+         contract="""
+    ensures
+        // runs that reported NO error: every tree pack of the index is listed by the hot backend with exactly the indexed size
+        /*@no_error_implies_every_tree_pack_in_hot_store*/ r is Ok ==> forall|id: PackId| treepacks@.dom().contains(id) ==>
+            be.listed(FileType::Pack).contains((Id(id.0), (#[trigger] treepacks@[id]).0)),
+""",
+         loops={1: """
+        invariant
+            forall|x: (Id, u32)| listing@.contains(x) ==> be.listed(FileType::Pack).contains(x),
+            forall|id: PackId| tp0.dom().contains(id) ==>
+                (treepacks@.dom().contains(id) && treepacks@[id] == tp0[id]) || be.listed(FileType::Pack).contains((Id(id.0), (#[trigger] tp0[id]).0)),
+""", 2: """
+        invariant it2.index@ == 0,
+"""},
+         hints=[("loop_start", "1", "            proof { assert(listing@[it.index@] == *x); assert(listing@.contains(*x)); }")],
+         ),
+    Unit(name="check_hot_files", file=CK, anchor="fn check_hot_files(", ret_name="r",
+         functions=["commands::check::check_hot_files"],
+         rewrites=[
+             Rw("be: &impl ReadBackend,", "be: &VListBackend,", sig=True, why="impl ReadBackend -> listing stub"),
+             Rw("be_hot: &impl ReadBackend,", "be_hot: &VListBackend,", sig=True, why="impl ReadBackend -> listing stub"),
+             R_DROP_E, R_DROP_W,
+             Rw(r"\.into_iter\(\)\s*\.collect::<HashMap<_, _>>\(\)", ".vcollect_map()", regex=True, why="collect into HashMap -> map stub"),
+             Rw("for (id, size_hot) in files_hot {", "for x in it: files_hot.iter() { let (id, size_hot) = *x;", why="Verus for-loop syntax; by-reference iteration + destructuring"),
+             Rw("for (id, _) in files {", "let ents = files.ventries(); for e in it2: ents.iter() {", why="map iteration -> entries vector"),
+         ],
+         contract="""
+    ensures
+        // runs that reported NO error: the hot and the cold store list the same ids, and every hot file has a cold file of the same size
+        /*@no_error_implies_hot_listing_within_cold*/ r is Ok ==> forall|x: (Id, u32)| be_hot.listed(file_type).contains(x) ==> be.listed(file_type).contains(x),
+        /*@no_error_implies_every_cold_file_has_hot_copy*/ r is Ok ==> forall|x: (Id, u32)| #[trigger] be.listed(file_type).contains(x) ==> exists|s: u32| be_hot.listed(file_type).contains((x.0, s)),
+""",
+         loops={1: """
+        invariant
+            forall|x: (Id, u32)| files_hot@.contains(x) <==> be_hot.listed(file_type).contains(x),
+            forall|k: int| 0 <= k < it.index@ ==> be.listed(file_type).contains(#[trigger] files_hot@[k]),
+            forall|x: (Id, u32)| #[trigger] be.listed(file_type).contains(x) ==> files@.dom().contains(x.0) || exists|k: int| 0 <= k < it.index@ && (#[trigger] files_hot@[k]).0 == x.0,
+            forall|id: Id| files@.dom().contains(id) ==> be.listed(file_type).contains((id, #[trigger] files@[id])),
+""", 2: """
+        invariant it2.index@ == 0,
+"""},
+         hints=[("loop_start", "1", "            proof { assert(files_hot@[it.index@] == *x); }"),
+                ("before", "p.finish();", """    proof {
+        assert forall|x: (Id, u32)| #[trigger] be.listed(file_type).contains(x) implies exists|s: u32| be_hot.listed(file_type).contains((x.0, s)) by {
+            assert(!files@.dom().contains(x.0));
+            let k = choose|k: int| 0 <= k < files_hot@.len() && (#[trigger] files_hot@[k]).0 == x.0;
+            assert(files_hot@.contains(files_hot@[k]));
+            assert(files_hot@[k] == (x.0, files_hot@[k].1));
+        }
+    }""")],
+         ),
+]
 KANI = []
 META = {"not_covered": [
     "completeness ('every damage is reported or harmless') and the link to restorability: whole-repository statements",
-    "check_trees (threaded tree walk), check_packs_list / check_packs_list_hot (BTreeMap bookkeeping), cache checks",
+    "check_trees (threaded tree walk), check_cache_files (rayon + file-system cache), check_packs' index stream (threads); the BTreeMap/HashMap of the list comparisons are stubs with map semantics",
     "panics of check_pack / check_packs on a crafted index whose size field or lengths are inconsistent (preconditions of the units)",
 ]}
